@@ -156,7 +156,7 @@ KINDS = {
     'B!': ('106B', 'unsupported'), 'F+': ('212F', 'found'),
     'F~': ('212F', 'error'), 'C?': ('106C', None),
     'Asel': ('106A', 'badsel'), 'D!': ('106A', 'dep-unsupported'),
-    'D-': ('106A', 'dep-absent'),
+    'D-': ('106A', 'dep-absent'), 'Datr': ('106A', 'badatr'),
 }
 
 
@@ -168,6 +168,8 @@ def make_target(kind):
         t.sel_req = bytearray(5)
     if what in ('dep-unsupported', 'dep-absent'):
         t.atr_req = bytearray(16)
+    if what == 'badatr':
+        t.atr_req = bytearray(15)
     return t
 
 
@@ -202,7 +204,7 @@ def sense_case(case):
         dev.env, dev.found = env, dict(found)
         del log[:]
         targets = [make_target(k) for k in kinds]
-        invalid = any(KINDS[k][1] == 'badsel' for k in kinds)
+        invalid = any(KINDS[k][1] in ('badsel', 'badatr') for k in kinds)
         try:
             res = ('ret', clf.sense(*targets, iterations=iterations,
                                     interval=0.01))
